@@ -246,6 +246,15 @@ func runC12(r *engine.Run) {
 				}
 				return errS(b.AddChannel(base+10000000+uint32(n)*200000, init.CFListMinDR, init.CFListMaxDR))
 			}},
+			{Name: "Add(fresh lower frequency,cflist-range)", Do: func(obj interface{}) string {
+				// channels are not configured in ascending order of frequency
+				b := obj.(band.Band)
+				n, ok := room(b)
+				if !ok {
+					return "skip"
+				}
+				return errS(b.AddChannel(base+9000000-uint32(n)*200000, init.CFListMinDR, init.CFListMaxDR))
+			}},
 			{Name: "Add(frequency-of-channel-1,DR6..6)", Do: func(obj interface{}) string {
 				b := obj.(band.Band)
 				if _, ok := room(b); !ok {
